@@ -1,6 +1,7 @@
 #!/bin/sh
 # usage: tools/new_mutant_round.sh <A> <B> <PROP>...   creates /tmp/wt/<PROP> (worktree of /repo HEAD) and /tmp/seeded/<PROP>.prompt.txt
-# The prompt holds only the property text and the worktree path (nothing from /verif).
+# The prompt holds only the property text and the worktree path (nothing from /verif). FOCUS_<PROP>="..." adds a sentence
+# (e.g. which source file of the repository both changes should be made in).
 A="$1"; B="$2"; shift 2
 mkdir -p /tmp/wt /tmp/seeded
 for id in "$@"; do
@@ -17,7 +18,8 @@ if os.environ.get('WITH_ANCHORS'):
     anch=p.get('anchors',{})
     prop+="\nCODE THE PROPERTY IS ANCHORED IN (files): "+", ".join(anch.get('files',[]))+"\n"
     prop+="MECHANISMS: "+"; ".join(f"{m['name']} ({m['where']})" for m in anch.get('mechanism',[]))+"\n"
-avoid=''
+avoid=os.environ.get('FOCUS_'+i,'')
+if avoid: avoid=avoid.rstrip()+' '
 t=open('/verif/tools/mutant_prompt.tmpl').read()
 t=t.replace('__WT__',f'/tmp/wt/{i}').replace('__ID__',i).replace('__PROP__',prop).replace('__A__',a).replace('__B__',b).replace('__AVOID__',avoid)
 open(f'/tmp/seeded/{i}.prompt.txt','w').write(t)
